@@ -11,6 +11,8 @@ for sid in sorted(os.listdir("/verif/seeded")):
     if not os.path.isdir(d):
         continue
     meta = json.load(open(d + "/meta.json"))
+    if meta.get("obsolete_since"):
+        continue
     tmp = tempfile.mkdtemp(prefix="st_")
     try:
         shutil.copytree("/repo/lbfgsb", tmp + "/lbfgsb")
